@@ -100,3 +100,16 @@ M("c09_stream_early_test", KD, "if input_type == \"batch\" or (self._test_data_s
 M("c09_stream_test_window_reset", KD, "self._kdqtree.fill(ary, tree_id=\"test\", reset=(input_type == \"batch\"))", "self._kdqtree.fill(ary, tree_id=\"test\", reset=(input_type == \"batch\" or self._test_data_size == 2 * self.window_size))", ["C09"])
 M("c09_bootstrap_uniform_p", KD, "b_sample = np.random.choice(bin_indices, size=2 * sample_size, p=ref_dist)", "b_sample = np.random.choice(bin_indices, size=2 * sample_size)", ["C09"])
 M("c09_drift_counter_not_reset", KD, "        self._drift_counter = 0  # samples consecutively in the drift region\n", "        self._drift_counter = getattr(self, \"_drift_counter\", 0) // 2  # samples consecutively in the drift region\n", ["C09", "C02"])
+
+NP_ = "menelaus/partitioners/NNSpacePartitioner.py"
+ND = "menelaus/data_drift/nndvi.py"
+M("c10_split_halves_again", NP_, "v1, v2 = np.split(inverted_indices, [len(sample1)])", "v1, v2 = np.array_split(inverted_indices, 2)", ["C10", "C18"])
+M("c10_threshold_alpha", ND, "drift_threshold = norm.ppf(1 - alpha, mu, std)", "drift_threshold = norm.ppf(alpha, mu, std)", ["C10", "C17"])
+M("c10_reference_always_replaced", ND, "        if d_act > theta_drift:\n            self._drift_state = \"drift\"\n            self.set_reference(test_batch)", "        if d_act > theta_drift:\n            self._drift_state = \"drift\"\n        self.set_reference(test_batch)", ["C10"])
+M("c10_actual_distance_complement", ND, "d_act = NNSpacePartitioner.compute_nnps_distance(M_nnps, v_ref, v_test)", "d_act = NNSpacePartitioner.compute_nnps_distance(M_nnps, v_ref, 1 - v_ref)", ["C10"])
+M("c10_v2_complement", NP_, "        v2_onehot[v2] = 1.0\n", "        v2_onehot = 1.0 - v1_onehot\n", ["C10"])
+M("c10_knn_excludes_self", NP_, "M_adj = nn.kneighbors_graph(D).toarray()", "M_adj = nn.kneighbors_graph().toarray()", ["C10"])
+M("c10_sampling_times_half", ND, "        for _ in range(sampling_times):", "        for _ in range(max(2, sampling_times // 2)):", ["C10"])
+M("c10_reference_not_replaced", ND, "            self._drift_state = \"drift\"\n            self.set_reference(test_batch)", "            self._drift_state = \"drift\"", ["C10", "C02"])
+M("c10_distance_denominator", NP_, "        denom = len(v1)\n", "        denom = np.sum(v1) + np.sum(v2)\n", ["C10"])
+# (c10_decision_ge `>` -> `>=`: equivalent in practice, the threshold is a normal quantile of continuous distances; an exact tie needs std = 0, where ppf is nan)
